@@ -50,6 +50,8 @@ pub enum Corr {
     ValuesShort,
     ValuesLong,
     ValuesEmpty,
+    /// values resized to this length (zero padded / cut): whole extra row, missing row, doubled
+    ValuesLen(usize),
     ColsPlus,
     ColsMinus,
     Root,
@@ -65,6 +67,7 @@ impl Corr {
             Corr::ValuesShort => json!({"c": "values_short"}),
             Corr::ValuesLong => json!({"c": "values_long"}),
             Corr::ValuesEmpty => json!({"c": "values_empty"}),
+            Corr::ValuesLen(n) => json!({"c": "values_len", "n": n}),
             Corr::ColsPlus => json!({"c": "cols_plus"}),
             Corr::ColsMinus => json!({"c": "cols_minus"}),
             Corr::Root => json!({"c": "root"}),
@@ -81,6 +84,7 @@ impl Corr {
             "values_short" => Corr::ValuesShort,
             "values_long" => Corr::ValuesLong,
             "values_empty" => Corr::ValuesEmpty,
+            "values_len" => Corr::ValuesLen(g("n")? as usize),
             "cols_plus" => Corr::ColsPlus,
             "cols_minus" => Corr::ColsMinus,
             "root" => Corr::Root,
@@ -97,6 +101,7 @@ impl Corr {
             Corr::ValuesShort => "values_short",
             Corr::ValuesLong => "values_long",
             Corr::ValuesEmpty => "values_empty",
+            Corr::ValuesLen(_) => "values_len",
             Corr::ColsPlus => "cols_plus",
             Corr::ColsMinus => "cols_minus",
             Corr::Root => "root",
@@ -137,6 +142,7 @@ pub fn exec(ctx: &Ctx, own: Variant, sh: &Shape, table: Option<&Table>, corr: &C
         }
         Corr::ValuesLong => values.push(Felt::from(5u64)),
         Corr::ValuesEmpty => values.clear(),
+        Corr::ValuesLen(n) => values.resize(*n, Felt::from(5u64)),
         Corr::ColsPlus => n_columns += Felt::ONE,
         Corr::ColsMinus => n_columns -= Felt::ONE,
         Corr::Root => root += Felt::ONE,
@@ -151,6 +157,11 @@ fn corruptions(sh: &Shape, n_wit: usize) -> Vec<Corr> {
     let mut out = vec![Corr::None, Corr::Root, Corr::ValuesShort, Corr::ValuesLong, Corr::ColsPlus, Corr::ColsMinus];
     if n_vals > 0 {
         out.push(Corr::ValuesEmpty);
+    }
+    for n in [n_vals + sh.cols, n_vals.saturating_sub(sh.cols), 2 * n_vals, n_vals + sh.cols - 1, n_vals + 2] {
+        if n != n_vals && n != n_vals + 1 && n + 1 != n_vals && n != 0 {
+            out.push(Corr::ValuesLen(n));
+        }
     }
     for i in 0..n_vals {
         out.push(Corr::Cell(i));
@@ -244,7 +255,7 @@ pub fn run(ctx: &Ctx) -> Report {
                                             case_json(own, &sh, &corr, &v));
                                     }
                                     // a length mismatch must be an error value, not a panic
-                                    if matches!(corr, Corr::ValuesShort | Corr::ValuesLong | Corr::ValuesEmpty) {
+                                    if matches!(corr, Corr::ValuesShort | Corr::ValuesLong | Corr::ValuesEmpty | Corr::ValuesLen(_)) {
                                         if let Verdict::Panic(p) = &v {
                                             r.violation(&format!("table_decommit:length-panic:{}", p.site()),
                                                 &format!("cells != columns x queries panics instead of returning an error: {}", p.site()),
@@ -279,6 +290,6 @@ pub fn replay(ctx: &Ctx, case: &Value) -> super::ReplayResult {
     let sh = Shape { h, f, cols, special, qs: &qs };
     let (expect, v) = exec(ctx, own, &sh, None, &corr);
     let bad = v.accepted() != expect
-        || (matches!(corr, Corr::ValuesShort | Corr::ValuesLong | Corr::ValuesEmpty) && matches!(v, Verdict::Panic(_)));
+        || (matches!(corr, Corr::ValuesShort | Corr::ValuesLong | Corr::ValuesEmpty | Corr::ValuesLen(_)) && matches!(v, Verdict::Panic(_)));
     Ok((bad, format!("expected_accept={} observed={}", expect, v.class())))
 }
